@@ -21,6 +21,7 @@ def gen_content(rnd, multiline=True):
     parts = [rnd.choice(WORDS) for _ in range(n)]
     s = " ".join(parts)
     if rnd.random() < 0.2: s += rnd.choice(["$", "\\0", "\\p", "\\n"])
+    elif rnd.random() < 0.15: s += rnd.choice([" 110", "0", " LV. 50", "\\", "0$", "$0"])   # look-alikes of terminators
     return s
 
 def string_lit(rnd, content, typ, multipart=True):
@@ -405,8 +406,15 @@ def gen_C09(rnd, n, tier):
             if len(value) > 0: value += "\n"
             value += v
         lit = typ + rnd.choice([" ", "\n  ", "  "]).join(srcparts)
-        origin = rnd.choice(["stmt", "inline", "pory", "pory_"])
-        if origin == "stmt": src = "text T {\n  %s\n}\n" % lit; label = "T"
+        origin = rnd.choice(["stmt", "inline", "pory", "pory_", "pair"])
+        if origin == "pair":
+            # the same content under another string type earlier in the file must not capture this text
+            other = rnd.choice([t for t in ["", "ascii", "braille", "custom"] if t != typ])
+            olit = other + " ".join(srcparts)
+            src = "script S {\n  first(%s)\n  msgbox(%s)\n}\n" % (olit, lit)
+            label = "S_Text_1" if terminated(value, other) != terminated(value, typ) or other != typ else "S_Text_0"
+            label = "S_Text_1"
+        elif origin == "stmt": src = "text T {\n  %s\n}\n" % lit; label = "T"
         elif origin == "inline": src = "script S {\n  msgbox(%s)\n}\n" % lit; label = "S_Text_0"
         elif origin == "pory": src = "text T {\n  poryswitch(V) { A: %s _: \"other\" }\n}\n" % lit; label = "T"
         else: src = "text T {\n  poryswitch(V) { Q: \"other\" _ { %s } }\n}\n" % lit; label = "T"
@@ -442,6 +450,7 @@ def gen_C10(rnd, n, tier):
         if rnd.random() < 0.3:
             consts = {"K_ONE": ["1"], "K_SUM": ["BASE", "+", "2"]}
             pre = "const K_ONE = 1\nconst K_SUM = BASE + 2\n"
+        ntext = 0; texts = []
         for j in range(ncmd):
             name = rnd.choice(["lock", "setvar", "c%d" % j, "giveitem", "end_x", "returnx"])
             form = rnd.random()
@@ -450,17 +459,36 @@ def gen_C10(rnd, n, tier):
             else:
                 args = [gen_arg(rnd) for _ in range(rnd.randint(1, 3))]
                 if consts and rnd.random() < 0.5: args[0] = [rnd.choice(list(consts))]
+                # a macro-like argument with a comma inside parentheses: the compiler splits at every comma
+                if rnd.random() < 0.25: args.insert(rnd.randrange(len(args) + 1), ["MAKE", "(", "1", ",", "2", ")"])
+                # an inline text argument (alone in its argument): replaced by its label
+                tpos = None
+                if rnd.random() < 0.35:
+                    tpos = rnd.randrange(len(args) + 1); args.insert(tpos, None)
                 sp = lambda ts: rnd.choice([" ", "  ", "\t", "\n    "]).join(ts)
-                stmts.append("%s(%s)" % (name, rnd.choice([",", ", ", " ,\n "]).join(sp(a) for a in args)))
+                srcargs = []
+                for a in args:
+                    if a is None:
+                        content = "text %d of %d" % (ntext, i); srcargs.append('"%s"' % content)
+                    else: srcargs.append(sp(a))
+                stmts.append("%s(%s)" % (name, rnd.choice([",", ", ", " ,\n "]).join(srcargs)))
                 exp = []
                 for a in args:
-                    e = []
-                    for t in a: e += consts.get(t, [t])
-                    exp.append(" ".join(e))
+                    if a is None:
+                        exp.append("S_Text_%d" % ntext); texts.append("text %d of %d$" % (ntext, i)); ntext += 1; continue
+                    cur = []
+                    for t in a:
+                        if t == ",": exp.append(" ".join(cur)); cur = []
+                        else: cur += consts.get(t, [t])
+                    exp.append(" ".join(cur))
                 want.append("\t%s %s" % (name, ", ".join(exp)))
-        src = pre + "script S {\n  " + "\n  ".join(stmts) + "\n}\n"
-        cfg = base_cfg()
-        out.append(Case(compile_line(cfg, src), src, cfg, {"want": want}))
+        body = "\n  ".join(stmts)
+        wrap = rnd.random()
+        cfg = base_cfg(switches={"V": "ZZ"})
+        if wrap < 0.15: body = "poryswitch(V) { A { other(1) } _ {\n  %s\n  } }" % body       # the '_' case is selected
+        elif wrap < 0.25: body = "poryswitch(V) { _: skip ZZ {\n  %s\n  } }" % body
+        src = pre + "script S {\n  " + body + "\n}\n"
+        out.append(Case(compile_line(cfg, src), src, cfg, {"want": want, "texts": texts}))
     return out
 
 def oracle_C10(case, res):
@@ -468,6 +496,9 @@ def oracle_C10(case, res):
     lines = res["text"].split("\n")
     want = ["S::"] + case.meta["want"] + ["\treturn", ""]
     if lines[:len(want)] != want: return "commands emitted as %r, expected %r" % (lines[:len(want)], want)
+    texts, _ = text_blocks(res["text"])
+    for k, t in enumerate(case.meta.get("texts", [])):
+        if texts.get("S_Text_%d" % k) != [("string", t)]: return "inline text %d emitted as %r, expected %r" % (k, texts.get("S_Text_%d" % k), t)
     return None
 
 # ---------------- C14 ----------------
@@ -478,6 +509,14 @@ def gen_C14(rnd, n, tier):
             steps = []; src = []; err = None
             for _ in range(rnd.randint(0, 6)):
                 st = rnd.choice(["walk_up", "walk_down", "face_left", "step_end", "delay_16"])
+                if rnd.random() < 0.12:
+                    # poryswitch-selected part; switch value is A: an explicitly empty selected case
+                    # contributes nothing, a colon case one step, a brace case all its steps
+                    kind = rnd.choice(["empty", "colon", "brace"])
+                    if kind == "empty": src.append("poryswitch(V) { A {} B { walk_left * 3 } _ { walk_right * 2, delay_16 } }")
+                    elif kind == "colon": src.append("poryswitch(V) { B: walk_left A: jump_up _: walk_right }"); steps.append("jump_up")
+                    else: src.append("poryswitch(V) { _ { walk_right } A { jump_a jump_b * 2 } }"); steps += ["jump_a", "jump_b", "jump_b"]
+                    continue
                 if rnd.random() < 0.4:
                     mult, val = rnd.choice([("2", 2), ("1", 1), ("0x3", 3), ("010", 8), ("9999", 9999), ("0", None), ("10000", None), ("-2", None), ("0x", None), ("09", None), ("3", 3)])
                     src.append("%s * %s" % (st, mult))
@@ -494,17 +533,23 @@ def gen_C14(rnd, n, tier):
                 exp.append(st)
                 if st == "step_end": break
             if not exp or exp[-1] != "step_end": exp.append("step_end")
-            cfg = base_cfg()
+            cfg = base_cfg(switches={"V": "A"})
             out.append(Case(compile_line(cfg, s), s, cfg, {"kind": "movement", "label": label, "want": exp, "err": err}))
         else:
-            items = [rnd.choice(["ITEM_A", "ITEM_B", "ITEM_NONE", "ITEM_C", "K_ITEM"]) for _ in range(rnd.randint(0, 6))]
-            s = "const K_ITEM = ITEM_K\nmart M {\n  %s\n}\n" % " ".join(items)
-            exp = []
+            items = [rnd.choice(["ITEM_A", "ITEM_B", "ITEM_NONE", "ITEM_C", "K_ITEM", "K_END", "PS_EMPTY", "PS_TWO"]) for _ in range(rnd.randint(0, 6))]
+            srcitem = {"PS_EMPTY": "poryswitch(V) { A {} B { ITEM_X } _ { ITEM_Y ITEM_NONE } }",
+                       "PS_TWO": "poryswitch(V) { B: ITEM_X _ { ITEM_P ITEM_Q } }"}
+            s = "const K_ITEM = ITEM_K\nconst K_NONE = ITEM_NONE\nconst K_END = K_NONE\nmart M {\n  %s\n}\n" % " ".join(srcitem.get(i, i) for i in items)
+            exp = []; flat = []
             for it in items:
+                if it == "PS_EMPTY": continue            # switch value A selects the empty brace case
+                if it == "PS_TWO": flat += ["ITEM_P", "ITEM_Q"]
+                else: flat.append({"K_ITEM": "ITEM_K", "K_END": "ITEM_NONE"}.get(it, it))
+            for it in flat:
                 if it == "ITEM_NONE": break
-                exp.append("ITEM_K" if it == "K_ITEM" else it)
+                exp.append(it)
             exp.append("ITEM_NONE")
-            cfg = base_cfg()
+            cfg = base_cfg(switches={"V": "A"})
             out.append(Case(compile_line(cfg, s), s, cfg, {"kind": "mart", "label": "M", "want": exp, "err": None}))
     return out
 
@@ -747,6 +792,9 @@ def gen_C13(rnd, n, tier):
         tops = ["script S { %s }" % " ".join(stmts)]
         single = [nme for nme in names if len(defs[nme]) == 1 and not defs[nme][0].isdigit()]
         if single and rnd.random() < 0.5: tops.append("mart M { ITEM_A %s ITEM_B }" % rnd.choice(single))
+        if rnd.random() < 0.2:
+            deflines.append("const K8 = ITEM_NONE"); defs["K8"] = ["ITEM_NONE"]
+            tops.append("mart M2 { ITEM_A K8 ITEM_B }")
         if rnd.random() < 0.5: tops.append("mapscripts MS { T [ %s, %s: L1  %s + 1, 2 { z } ] }" % (u(), u(), u()))
         prog = "\n".join(deflines + tops)
         expand = lambda s: re.sub(r"\bK\d\b", lambda m: " ".join(defs[m.group(0)]), s)
